@@ -271,12 +271,67 @@ def _tail_helper_body(model: Model, fi: FuncInfo, body: List[ast.stmt], caller_n
     return out
 
 
+def _terminates(stmts: List[ast.stmt]) -> bool:
+    if not stmts:
+        return False
+    last = stmts[-1]
+    if isinstance(last, (ast.Return, ast.Raise)):
+        return True
+    if isinstance(last, ast.If):
+        return _terminates(last.body) and _terminates(last.orelse)
+    return False
+
+
+def _sink_tail(body: List[ast.stmt]) -> Tuple[List[ast.stmt], bool]:
+    """if A: x = 1 / elif B: x = 2 / else: return g  followed by a short straight-line tail ending in `return f(x)`:
+    the tail is copied to the end of every branch that reaches it. Each outcome is then a return under its own
+    condition, which is how the rules read a decision."""
+    for i, st in enumerate(body):
+        if not isinstance(st, ast.If):
+            continue
+        tail = body[i + 1:]
+        if not tail or len(tail) > 5 or not isinstance(tail[-1], ast.Return):
+            continue
+        if not all(isinstance(t_, (ast.Assign, ast.Expr, ast.Return)) for t_ in tail) or any(isinstance(x, (ast.Lambda, ast.NamedExpr, ast.Yield)) for t_ in tail for x in ast.walk(t_)):
+            continue
+        if _terminates([st]):
+            continue
+
+        def simple(stmts):
+            return all(isinstance(s_, (ast.Assign, ast.Expr, ast.Return, ast.Raise, ast.Pass)) or (isinstance(s_, ast.If) and simple(s_.body) and simple(s_.orelse)) for s_ in stmts)
+
+        if not (simple(st.body) and simple(st.orelse)):
+            continue
+
+        def sink(node: ast.If) -> ast.If:
+            new = copy.copy(node)
+            b = list(node.body)
+            new.body = b if _terminates(b) else b + [_fresh(clone_ast(t_)) for t_ in tail]
+            o = list(node.orelse)
+            if len(o) == 1 and isinstance(o[0], ast.If):
+                new.orelse = [sink(o[0])]
+            else:
+                new.orelse = o if _terminates(o) else o + [_fresh(clone_ast(t_)) for t_ in tail]
+            new._fresh = True  # type: ignore
+            return new
+
+        return body[:i] + [sink(st)], True
+    return body, False
+
+
+def _fresh(n):
+    n._fresh = True  # type: ignore
+    return n
+
+
 def _unroll(model: Model, fi: FuncInfo) -> FuncInfo:
     if isinstance(fi.node, ast.Lambda):
         return fi
     body = list(fi.node.body)
     new_body: List[ast.stmt] = []
     changed = False
+    body, ch0 = _sink_tail(body)
+    changed = changed or ch0
     for _ in range(2):
         body, ch = _inline_returned_helpers(model, fi, body)
         if not ch:
